@@ -199,8 +199,30 @@ func (c *Ctx) goroutineClosures(fns []*ssa.Function) map[*ssa.Function]*ssa.Func
 							}
 						}
 					}
+					if callee == nil {
+						if sc := x.Call.StaticCallee(); sc != nil && len(sc.Blocks) > 0 && sc.Pkg == fn.Pkg {
+							callee = sc // `go ec.method(args)`: parameters are private to the goroutine instance
+						}
+					}
 					if callee != nil {
 						add(callee, callee)
+						// sibling closures the goroutine entry calls (`worker` calling `marshalElem(i)`): each invocation has
+						// its own frame, so its parameters are private to the goroutine instance as well
+						for _, b2 := range callee.Blocks {
+							for _, in2 := range b2.Instrs {
+								c2, ok := in2.(*ssa.Call)
+								if !ok {
+									continue
+								}
+								for _, d := range an.Defs(c2.Call.Value) {
+									if mc2, ok := d.(*ssa.MakeClosure); ok {
+										if f2 := mc2.Fn.(*ssa.Function); f2.Parent() != callee {
+											add(f2, f2)
+										}
+									}
+								}
+							}
+						}
 					}
 				case ssa.CallInstruction:
 					if strings.HasSuffix(an.CalleeOf(x).FullName(), "graphql.FieldSet).Concurrently") {
